@@ -661,6 +661,83 @@ class Histories(Part):
         return res
 
 
+class AfterFailedFile(Part):
+    name = "files_after_a_file_that_failed"
+    desc = "a directory run (anonymize_files / main, secrets on or off) in which the first, a middle or no file cannot be processed (undecodable bytes, output path occupied): every address of the other files keeps its listed prefixes and host bits"
+
+    def __init__(self, tier, seed):
+        self.tier, self.seed = tier, seed
+
+    def cases(self):
+        return [{"fault": f, "pos": p, "pwd": pw, "entry": e, "B": B}
+                for f in ("undecodable", "outpath-is-dir", "none") for p in (0, 1) for pw in (False, True)
+                for e in ("anonymize_files", "main") for B in (8, 16) if not (f == "none" and p)]
+
+    def run(self, case):
+        import os
+        import shutil
+
+        from mc import seams
+        from netconan.anonymize_files import anonymize_files
+        from netconan.netconan import main
+
+        res = Res()
+        pl = ["12.34.0.0/16", "10.0.0.0/8"]
+        nets = [ipaddress.ip_network(p) for p in pl]
+        B = case["B"]
+        low = (1 << B) - 1
+        good = {}
+        for k in range(3):
+            a4 = [int(ipaddress.IPv4Address(x)) + k for x in ("12.34.3.5", "12.35.3.5", "10.1.2.3", "200.7.6.5", "138.7.6.5")]
+            a6 = [int(ipaddress.IPv6Address(x)) + k for x in ("2001:db8::1:5", "fe80::a:b")]
+            good["f%d.cfg" % k] = (a4, a6)
+        names = sorted(good)
+        order = names[: case["pos"]] + ["bad.cfg"] + names[case["pos"]:] if case["fault"] != "none" else names
+        root = seams.scratch_dir("c04f")
+        try:
+            files = {}
+            for n, (a4, a6) in good.items():
+                files[n] = "".join("peer %s\n" % refs.v4_text(a) for a in a4) + "".join("peer %s\n" % refs.v6_text(a) for a in a6) + \
+                    "password secret%s\n" % n
+            if case["fault"] != "none":
+                files["bad.cfg"] = b"password zz\n\xff\xfe\x80 bad\n" if case["fault"] == "undecodable" else "password zz\npeer 12.34.9.9\n"
+            seams.write_tree(os.path.join(root, "in"), files)
+            if case["fault"] == "outpath-is-dir":
+                os.makedirs(os.path.join(root, "out", "bad.cfg"))
+            with seams.capture_logs(), seams.capture_stdio(), seams.walk_order(lambda n: order.index(n) if n in order else -1):
+                if case["entry"] == "main":
+                    main(["-a", "-s", "saltForTest", "--preserve-host-bits", str(B), "--preserve-prefixes", ",".join(pl),
+                          "-i", os.path.join(root, "in"), "-o", os.path.join(root, "out")] + (["-p"] if case["pwd"] else []))
+                else:
+                    anonymize_files(os.path.join(root, "in"), os.path.join(root, "out"), anon_pwd=case["pwd"], anon_ip=True,
+                                    salt="saltForTest", preserve_prefixes=list(pl), preserve_suffix_v4=B, preserve_suffix_v6=B)
+            out = seams.read_tree(os.path.join(root, "out"))
+        finally:
+            shutil.rmtree(root, ignore_errors=True)
+        for n, (a4, a6) in good.items():
+            got = (out.get(n) or b"").decode().splitlines()
+            for a, ln in zip(a4 + a6, got):
+                res.evals += 1
+                v = int(ipaddress.ip_address(ln.split()[1]))
+                is4 = a in a4
+                res.nt((n, a))
+                bad = None
+                if (a & low) != (v & low):
+                    bad = "host-bits-changed"
+                elif is4 and [x for x in nets if (ipaddress.IPv4Address(a) in x) != (ipaddress.IPv4Address(v) in x)]:
+                    bad = "membership-not-preserved"
+                if bad:
+                    res.violation("%s|after-a-failed-file|%s" % (bad, case["entry"]),
+                                  "run order %r, fault %s: %s in %s -> %s (prefixes %r, host bits %d)" % (
+                                      order, case["fault"], ipaddress.ip_address(a), n, ln.split()[1], pl, B), case)
+                    return res
+            if len(got) < len(a4 + a6):
+                res.violation("output-incomplete|after-a-failed-file", "%s has %d lines" % (n, len(got)), case)
+        res.out(case["fault"])
+        res.samples.append(case)
+        return res
+
+
 def parts(tier, seed):
     from props import c05
 
@@ -668,4 +745,4 @@ def parts(tier, seed):
     cli.name = "cli_private_and_listed_networks"
     cli.desc = "main() with --preserve-private-addresses / --preserve-addresses / --preserve-prefixes: outside stays outside"
     return [PrefixPart(tier, seed), HostBitsPart(tier, seed), LazyPart(tier, seed), WiringPart(tier, seed),
-            SuffixWiringPart(tier, seed), SecondAnonymizer(tier, seed), Histories(tier, seed), LongHistory(tier, seed), cli]
+            SuffixWiringPart(tier, seed), SecondAnonymizer(tier, seed), Histories(tier, seed), AfterFailedFile(tier, seed), LongHistory(tier, seed), cli]
